@@ -129,6 +129,12 @@ Section Inst.
   Definition parse_ext (c : extcodec) (s : schema) (w : value) : outcome value := obind (dec_tree c w) (parse s).
 End Inst.
 
+(** * the include / exclude options of Model.dict / Model.serialize: a restriction of the top-level keys of the dict() tree *)
+Definition restrict (keep : key -> bool) (v : value) : value :=
+  match v with VDict d => VDict (filter (fun kv => keep (fst kv)) d) | _ => v end.
+Definition excluding (ks : list string) (k : key) : bool := match k with KStr s => negb (smem s ks) | KBytes _ => true end.
+Definition including (ks : list string) (k : key) : bool := match k with KStr s => smem s ks | KBytes _ => false end.
+
 (** * correspondence check for model instances.
     numpy's element conversion is instantiated by the table the implementation run produced
     (array -> `ravel().tolist()`); its specification (lengths, leaves) is evaluated on that table. *)
@@ -155,3 +161,8 @@ Definition check_inst (cse : Z * schema * value * list (ndarray * list value) * 
       else value_eqb (ser_ext no_scalar c m) w
            && outcome_eqb value_eqb (parse_ext (tbl_of_elems tbl) c s w) r)
   && outcome_eqb value_eqb r (Ok (normalise m)).
+
+(** the same with serialize(enc, exclude=ks): [m] is the full dict() tree, [w] the wire tree of the restricted payload,
+    [r] the dict() of what was parsed back without the excluded fields *)
+Definition check_inst_excl (cse : list string * (Z * schema * value * list (ndarray * list value) * value * outcome value)) : bool :=
+  let '(ks, (enc, s, m, tbl, w, r)) := cse in check_inst (enc, s, restrict (excluding ks) m, tbl, w, r).
